@@ -34,7 +34,7 @@ def _m(p: ast.AST, n: ast.AST, b: Dict[str, ast.AST]) -> bool:
             old = b[k]
             if isinstance(old, str):
                 return isinstance(n, ast.Name) and n.id == old
-            return norm(old) == norm(n)
+            return _nc(old) == _nc(n)
         b[k] = n
         return True
     if type(p) is not type(n):
@@ -70,6 +70,11 @@ def _m(p: ast.AST, n: ast.AST, b: Dict[str, ast.AST]) -> bool:
             if pv != nv:
                 return False
     return True
+
+
+def _nc(x: ast.AST) -> str:
+    """norm() without expression contexts (a comprehension target and its uses are the same variable)."""
+    return re.sub(r"(Load|Store|Del)\(\)", "", norm(x))
 
 
 def matches(pattern: str, node: ast.AST, **fixed) -> bool:
